@@ -94,7 +94,16 @@ def strategy(tier: str):
         st.text(st.sampled_from("0123456789;;;-+ .a\n"), max_size=16),
     )
     warm = st.lists(st.one_of(gen.wellformed_message().map(gen.line_of), _grammar_line()), max_size=3)
-    return st.fixed_dictionaries({"version": gen.versions, "line": lines, "warmup": st.one_of(st.just([]), warm)})
+    return st.fixed_dictionaries(
+        {
+            "version": gen.versions,
+            "line": lines,
+            "warmup": st.one_of(st.just([]), warm),
+            "debug_log": st.sampled_from((False, False, True)),  # `aiomysensors --debug` (the CLI always logs at DEBUG)
+            "ctx": st.sampled_from(("same", "same", "same", "copied", "thread")),
+            "mqtt": st.sampled_from((False, False, True)),  # the same line spelled as MQTT topic levels + payload
+        }
+    )
 
 
 def enumerate_cases(tier: str):
@@ -111,16 +120,31 @@ def enumerate_cases(tier: str):
             for head in ("0;255;3;0;9;", "12;3;1;1;47;", "7;255;0;0;17;"):
                 yield {"version": version, "line": head + inner + "\n"}
                 yield {"version": version, "line": head + inner}
+    # the line arrives as MQTT topic levels + payload: an empty or odd level may not shift the payload into the header
+    for version in ("1.4", "2.2"):
+        for head in (["0", "255", "3", "0", "9"], ["12", "3", "1", "1", "47"], ["7", "255", "0", "0", "17"], ["3", "5", "3", "0", "3"], ["4", "255", "4", "0", "1"]):
+            for pos in range(5):
+                for text in ("", " ", "x", "-1", "256"):
+                    for payload in ("9;hello", "3;", "0;255;3;0;9;z", "x", ""):
+                        fields = list(head)
+                        fields[pos] = text
+                        yield {"version": version, "line": ";".join(fields) + ";" + payload + "\n", "mqtt": True}
+            for payload in ("9;hello", "a/b", ""):
+                yield {"version": version, "line": ";".join(head) + ";" + payload + "\n", "mqtt": True}
     versions = VERSIONS if tier == "thorough" else ("1.4", "2.2")
     reps = (NODE_REPS, CHILD_REPS, CMD_REPS, ACK_REPS, TYPE_REPS)
     for version in versions:
         # short lines: every prefix shape with 0-5 fields
         yield {"version": version, "line": ""}
         yield {"version": version, "line": "\n"}
+        yield {"version": version, "line": "", "debug_log": True}
+        yield {"version": version, "line": "\n", "debug_log": True}
         for count in range(1, 6):
             pools = [r[:6] if tier == "quick" else r for r in reps[:count]]
             for combo in itertools.product(*pools):
                 yield {"version": version, "line": ";".join(combo) + "\n"}
+                if count <= 3:
+                    yield {"version": version, "line": ";".join(combo) + "\n", "debug_log": True}
         if tier == "thorough":
             for combo in itertools.product(*reps):
                 for tail in ("", "p", "p;q"):
@@ -131,8 +155,61 @@ def enumerate_cases(tier: str):
                 yield {"version": version, "line": ";".join(combo) + ";p;q\n"}
 
 
+def _via_mqtt(version: str, line: str, ctx: str | None):
+    """Deliver the line as topic '<in>/f0/f1/f2/f3/f4' + payload through a real MQTTClient and listen. None = not expressible."""
+    import asyncio
+
+    from aiomysensors.transport.mqtt import MQTTClient
+
+    from vf.props import c18
+    from vf.vloop import run_virtual
+
+    body = line[:-1] if line.endswith("\n") else line
+    parts = body.split(";", 5)
+    if len(parts) != 6 or any(ch in level for level in parts[:5] for ch in "/+#\x00") or "\n" in body:
+        return None
+    try:
+        raw = parts[5].encode("utf-8")
+    except UnicodeEncodeError:
+        return None
+
+    async def main():
+        broker = c18.FakeBroker()
+        c18._patch(broker)
+        transport = MQTTClient("broker.invalid", 1883, "gw/out", "gw/in")
+        gateway, _ = env.make_gateway(version, transport=transport, ctx=ctx)
+        await transport.connect()
+        try:
+            if not broker.deliver("gw/out/" + "/".join(parts[:5]), raw, 0):
+                return None  # no subscription matches (e.g. the command level is not 0-4): the broker sends nothing
+            agen = gateway.listen()
+            try:
+                return "ok", await asyncio.wait_for(agen.__anext__(), 5.0)
+            except asyncio.TimeoutError:
+                return "dropped", None
+            except Exception as err:  # noqa: BLE001
+                from aiomysensors.exceptions import AIOMySensorsError
+
+                return ("liberr" if isinstance(err, AIOMySensorsError) else "leak"), err
+            finally:
+                await agen.aclose()
+        finally:
+            await transport.disconnect()
+
+    return run_virtual(main)[0]
+
+
 def run_case(case: dict) -> Outcome:
+    with env.debug_logging(bool(case.get("debug_log"))):
+        out = _run_case(case)
+    if case.get("debug_log"):
+        out.classes = tuple(out.classes or ()) + ("debug-log",)
+    return out
+
+
+def _run_case(case: dict) -> Outcome:
     version, line = case["version"], case["line"]
+    ctx = case.get("ctx")
     ref = ref_verdict(line)
     verdict, rule = ref["verdict"], ref["rule"]
     nfields = len(line.rstrip().split(";"))
@@ -141,8 +218,31 @@ def run_case(case: dict) -> Outcome:
     )
     classes = (f"fields={min(nfields, 8)}", f"verdict={verdict}", f"rule={rule.split('@')[0] if 'fields=' not in rule else 'fieldcount'}")
 
-    schema = MessageSchema()
-    schema.set_protocol(get_protocol(version))
+    def build_schema() -> MessageSchema:
+        made = MessageSchema()
+        made.set_protocol(get_protocol(version))
+        return made
+
+    schema = env.in_ctx(ctx, build_schema)
+    if case.get("mqtt"):
+        got = _via_mqtt(version, line, ctx)
+        if got is not None:
+            classes += ("via-mqtt",)
+            status, value = got
+            if status == "leak":
+                return fail(f"mqtt-listen-leak:{env.exc_sig(value)}", f"line {line!r} as MQTT topic+payload under {version}: {value!r}", classes=classes)
+            if verdict == "reject" and status == "ok":
+                return fail(
+                    f"mqtt-accepted-illformed:{rule.split('@')[0]}",
+                    f"topic levels + payload spelling {line!r} under {version} were accepted as {env.msg_fields(value)} (rule {rule})",
+                    classes=classes,
+                )
+            if verdict == "accept" and status == "ok" and None not in ref["values"]:
+                fields = env.msg_fields(value)
+                if fields[:5] != ref["values"] or not payload_matches(ref["rest"], fields[5]):
+                    return fail("mqtt-misdecoded", f"topic levels + payload spelling {line!r} decoded as {fields}", classes=classes)
+            if verdict == "accept" and status == "dropped":
+                return fail("mqtt-dropped-wellformed", f"topic levels + payload spelling {line!r}: nothing was received", classes=classes)
     for warm in case.get("warmup", ()):
         # the codec must be stateless: what a long-lived schema decoded before may not matter
         try:
@@ -162,7 +262,7 @@ def run_case(case: dict) -> Outcome:
         )
 
     async def via_gateway():
-        gateway, _transport = env.make_gateway(version)
+        gateway, _transport = env.make_gateway(version, ctx=ctx)
         for warm in case.get("warmup", ()):
             await env.rx(gateway, warm)
         return await env.rx(gateway, line)
